@@ -69,6 +69,7 @@ counters!(
     probe_stale_waker_used,
     probe_waker_replaced,
     probe_waker_twin,
+    probe_waker_shared,
     probe_sync_close_fallback,
     probe_direct_close,
     probe_fd_to_abandoned_op,
